@@ -10,6 +10,7 @@ import (
 	"go/constant"
 	"go/token"
 	"go/types"
+	"math"
 	"os"
 	"sort"
 	"strings"
@@ -288,6 +289,71 @@ func rulesC19(w *World, o *Out) {
 				}
 			}
 			o.Check("C19.R1", "priority comparator|exact on int64", exact, w.Pos(cmpFn.Pos()), "MaxInt64, MaxInt64-1, MaxInt64-2 and MaxInt64-3 all round to 2^63 as float64; a comparator that is not exact on int64 makes the four classes compare equal. "+why)
+		}
+	}
+	// the index comparator orders by (priority, weight, sender, nonce), every component in the same direction:
+	// each component comparison takes its first operand from the first key and its second from the second key
+	if sc := w.MustFunc(o, "app/mempool", "", "skiplistComparable"); sc != nil {
+		n := 0
+		for _, g := range sc.AnonFuncs {
+			if len(g.Params) != 2 {
+				continue
+			}
+			o.Analysed(w.FuncKey(g))
+			var cmps []*ssa.Call
+			for _, blk := range g.Blocks {
+				for _, in := range blk.Instrs {
+					call, isCall := in.(*ssa.Call)
+					if !isCall || len(call.Call.Args) < 2 {
+						continue
+					}
+					isCmp := false
+					if cal, okc := CalleeOf(call.Common()); okc && cal.Name == "Compare" {
+						isCmp = true
+					}
+					if nm, _ := loadedField(call.Call.Value); nm == "Compare" {
+						isCmp = true // the configured priority comparator (a function-valued field)
+					}
+					if isCmp {
+						cmps = append(cmps, call)
+					}
+				}
+			}
+			for _, call := range cmps {
+				c := struct{ Instr *ssa.Call }{call}
+				args := call.Call.Args
+				a, b := args[len(args)-2], args[len(args)-1]
+				side := func(v ssa.Value) int {
+					x, _ := fl.Influence(v)
+					r := 0
+					for ap := range x {
+						if ap.Root == ssa.Value(g.Params[0]) {
+							r |= 1
+						}
+						if ap.Root == ssa.Value(g.Params[1]) {
+							r |= 2
+						}
+					}
+					return r
+				}
+				n++
+				nm, _ := loadedField(a)
+				o.Check("C19.R2", "skiplistComparable|component "+nm+" compares the first key with the second", side(a) == 1 && side(b) == 2, w.Pos(c.Instr.Pos()), "a component compared in the opposite direction sorts ties the other way round; the iterator assumes a sender's own index entry follows the entries it defers to, and never selects the transaction otherwise")
+			}
+		}
+		o.Count("C19.R2 component comparisons in the index comparator", n, 4)
+	}
+	// what ordinary transactions get as their CheckTx priority stays below the four reserved classes: the fee
+	// checker wired into the ante handler returns a constant
+	if fs := w.MustFunc(o, "x/paloma", "", "TxFeeSkipper"); fs != nil {
+		o.Analysed(w.FuncKey(fs))
+		for _, r := range Returns(fs) {
+			if len(r.Ret.Results) < 2 {
+				continue
+			}
+			k, isK := r.Ret.Results[1].(*ssa.Const)
+			ok := isK && k.Value != nil && k.Int64() < math.MaxInt64-3 && k.Int64() >= 0
+			o.Check("C19.R1", "TxFeeSkipper|ordinary transactions get a constant priority below the reserved classes", ok, w.Pos(r.Ret.Pos()), "the CheckTx priority is the mempool's fallback; derived from the (never charged) declared fee it can reach MaxInt64 and outrank scheduler, evm and valset transactions")
 		}
 	}
 	// ---- R2 ----
